@@ -7,6 +7,7 @@ native_impl={
 'vxInt':'return vxPlanInt(name)',
 'vxInt64':'return int64(vxPlanInt(name))',
 'vxBool':'return vxPlanInt(name) != 0',
+'vxTime':'if v := vxPlanInt(name); v != 0 { return time.Unix(0, int64(v)) }; return time.Time{}',
 'vxChoice':'return vxPlanChoice(name)',
 'vxConcrete':'return v',
 'vxConcreteStr':'return s',
@@ -31,7 +32,7 @@ native_impl={
 def gen(pkgdir, pkgname):
     decl=open(os.path.join(pkgdir,'zz_verif_vx.go')).read()
     funcs=re.findall(r'^func (vx\w+)\((.*?)\)(.*)$',decl,re.M)
-    out=['// Code generated from zz_verif_vx.go by tools/gen_native.py; native bodies for replay. DO NOT EDIT.','package '+pkgname,'','import (','\t"encoding/json"','\t"fmt"','\t"os"','\t"path/filepath"','\t"strings"',')','']
+    out=['// Code generated from zz_verif_vx.go by tools/gen_native.py; native bodies for replay. DO NOT EDIT.','package '+pkgname,'','import (','\t"encoding/json"','\t"fmt"','\t"os"','\t"path/filepath"','\t"strings"','\t"time"',')','']
     out.append(re.search(r'const \(\n\tvxClassAny.*?\n\)\n\nconst \(.*?\n\)\n',decl,re.S).group(0))
     out.append('''var vxPlan map[string]interface{}
 var vxChoiceN int
